@@ -32,16 +32,16 @@ def check_metadata(ctx: Ctx, fx, g, p, stage: str):
         name = type(node).__name__
         ctx.require(getattr(node, "gengy_labeled", False), "metadata:node-not-labelled", {"stage": stage, "node": name})
         got = (node.gengy_nodes, node.gengy_distance_to_term, node.gengy_weighted_nodes)
-        ctx.require(got[0] == n, "metadata:gengy_nodes-wrong", lambda: {"stage": stage, "node": repr(node)[:160], "found": got[0], "expected": n})
-        ctx.require(got[1] == d, "metadata:gengy_distance_to_term-wrong", lambda: {"stage": stage, "node": repr(node)[:160], "found": got[1], "expected": d})
-        ctx.require(got[2] == w, "metadata:gengy_weighted_nodes-wrong", lambda: {"stage": stage, "node": repr(node)[:160], "found": got[2], "expected": w})
+        ctx.require(got[0] == n, "metadata:gengy_nodes-wrong", lambda: {"stage": stage, "node": OT.show(node), "found": got[0], "expected": n})
+        ctx.require(got[1] == d, "metadata:gengy_distance_to_term-wrong", lambda: {"stage": stage, "node": OT.show(node), "found": got[1], "expected": d})
+        ctx.require(got[2] == w, "metadata:gengy_weighted_nodes-wrong", lambda: {"stage": stage, "node": OT.show(node), "found": got[2], "expected": w})
         desc = OM.descendants(node)
         ttw = node.gengy_types_this_way
         for k in classes:
             exp = [x for x in desc if type(x) is k]
             found = list(ttw.get(k, [])) if hasattr(ttw, "get") else []
             ok = len(exp) == len(found) and all(any(f is e for f in found) for e in exp)
-            ctx.require(ok, "metadata:gengy_types_this_way-wrong", lambda: {"stage": stage, "node": repr(node)[:160], "class": k.__name__, "found": len(found), "expected": len(exp)})
+            ctx.require(ok, "metadata:gengy_types_this_way-wrong", lambda: {"stage": stage, "node": OT.show(node), "class": k.__name__, "found": len(found), "expected": len(exp)})
     # history independence: relabelling a stripped clone from the root gives the same labels
     clone = copy.deepcopy(p)
     for node in OM.all_nodes(clone) + [x for x in _lists(clone)]:
@@ -54,7 +54,7 @@ def check_metadata(ctx: Ctx, fx, g, p, stage: str):
     relabel_nodes_of_trees(clone, g)
     for a_node, b_node in zip(OM.all_nodes(p), OM.all_nodes(clone)):
         for a in ATTRS:
-            ctx.require(getattr(a_node, a) == getattr(b_node, a, None), "metadata:labels-depend-on-history", lambda: {"stage": stage, "attr": a, "node": repr(a_node)[:120], "carried": getattr(a_node, a), "fresh": getattr(b_node, a, None)})
+            ctx.require(getattr(a_node, a) == getattr(b_node, a, None), "metadata:labels-depend-on-history", lambda: {"stage": stage, "attr": a, "node": OT.show(a_node), "carried": getattr(a_node, a), "fresh": getattr(b_node, a, None)})
 
 
 def _lists(v, out=None):
